@@ -530,7 +530,10 @@ def _trace_validate(ctx, records, label, batch=2500, cfg="Trace_HedText.cfg"):
 
 def run(ctx):
     quick = ctx.quick
-    n = 6 if quick else 8
+    n = 6 if quick else 8                 # texts replayed into the real code: all up to length n
+    nd = 6 if quick else 7                # design run (algorithm = declarative definition): all up to length nd
+    if os.environ.get("C02_DESIGN_N") in ("6", "7", "8"):
+        nd = int(os.environ["C02_DESIGN_N"])      # 8: 28.6M states, about 4 min on 16 idle cores
     plen = 1 if quick else 2
     ctx.rule = ("cases = (A1) every text up to length %d over {t, blank, ',', '(', ')', '/'} emitted by TLC with the tags, "
                 "group spans, nesting, balance and print the declarative definition prescribes, replayed through "
@@ -541,8 +544,8 @@ def run(ctx):
 
     def model_runs():
         # ---- 1. design run: algorithm == declarative definition, print/re-parse, for all texts <= n
-        _tlc(ctx, "MC_HedText", "MC_HedText.cfg" if quick else "MC_HedText_thorough.cfg",
-             "design: algorithm = declarative definition, all texts up to length %d" % n, workers=16, coverage=True,
+        _tlc(ctx, "MC_HedText", {6: "MC_HedText.cfg", 7: "MC_HedText_thorough.cfg", 8: "MC_HedText_n8.cfg"}[nd],
+             "design: algorithm = declarative definition, all texts up to length %d" % nd, workers=16, coverage=True,
              timeout=2400, heap="8g", deadlock=True)
         never = sorted(a for a, (d, t) in ctx.actions.items() if t == 0)
         if never:
@@ -591,6 +594,9 @@ def run(ctx):
         "blank = U+0020 only (the class map of the property's alphabet); tab, NBSP and other Unicode white space are tag "
         "characters for the declarative definition, as for split_hed_string; the number of recorded texts on which the "
         "wider reading (str.isspace) would disagree is reported as blank_isspace_reading_disagreements",
+        "the step-wise algorithm is proved equal to the declarative definition for all texts up to length %d; the real code is "
+        "compared with the declarative definition for all texts up to length %d" % (nd, n),
+        "a run of blanks between two delimiters yields no tag (the trimmed run is empty)",
         "schema 8.3.0; equal tree = same nesting, pairwise HedTag equality and equal long form, and HedString ==",
         "A2 expected spans are the TLC spans of the abstract text carried through the position map of the concretiser; "
         "a sample of the concretised texts is additionally judged by TLC directly (trace mode)"]
